@@ -42,6 +42,14 @@ type Compiler struct {
 	optimizer     *Optimizer
 	macroExpander *MacroExpander
 	loopStack     []loopContext
+	limitations   []Limitation // see Limitations
+}
+
+// Limitation is something in a compiled route that the bytecode will not
+// execute the way the interpreter does.
+type Limitation struct {
+	Construct string // the source construct, for messages
+	Callee    string // for a call OpCall cannot resolve: the name being called
 }
 
 // NewCompiler creates a new compiler instance
@@ -75,9 +83,17 @@ func (c *Compiler) Reset() {
 	c.symbolTable = NewGlobalSymbolTable()
 	c.labelCounter = 0
 	c.loopStack = nil
+	c.limitations = nil
 	// Keep the optimizer with its current settings
 	// ... but not what it learned about the variables of the previous body
 	c.optimizer.resetFacts()
+}
+
+// Limitations reports what the most recently compiled route contains that
+// compiled code cannot execute the way the interpreter does (for example a
+// call to a user-defined function); a server should use the interpreter then.
+func (c *Compiler) Limitations() []Limitation {
+	return c.limitations
 }
 
 // Compile compiles an AST module to bytecode
@@ -1011,6 +1027,12 @@ func (c *Compiler) compileFunctionCall(expr *ast.FunctionCallExpr) error {
 		}
 	}
 
+	// OpCall resolves names against the VM's built-in table only: a call to
+	// anything else fails at run time with "undefined function".
+	if !vm.IsBuiltin(expr.Name) {
+		c.limitations = append(c.limitations, Limitation{Construct: "call to " + expr.Name + "()", Callee: expr.Name})
+	}
+
 	// Push function name first (it will be at bottom of stack)
 	fnNameIdx := c.addConstant(vm.StringValue{Val: expr.Name})
 	c.emitWithOperand(vm.OpPush, uint32(fnNameIdx))
@@ -1503,6 +1525,7 @@ func (c *Compiler) compileAsyncExpr(expr *ast.AsyncExpr) error {
 
 	// Merge constants from body compiler
 	c.constants = bodyCompiler.constants
+	c.limitations = append(c.limitations, bodyCompiler.limitations...)
 
 	// Emit OpAsync with body length, followed by body bytecode
 	bodyLen := uint32(len(bodyCompiler.code))
